@@ -769,13 +769,13 @@ example :
    (show DurNums (.frames { v := 3 } 0) from ⟨⟨by decide, by decide⟩, by decide⟩),
    (show DurTail (.frames { v := 3 } 0) [] ∧ _ ∧ _ from ⟨durTail_lsepTail _ [] (Or.inl rfl), by decide, by decide⟩)⟩
 
-/-- the look-ahead condition of every command of `LCovered` holds on canonical lines (end of the
-line, or one space and the first byte of a command of the extended set) -/
-theorem C05_command_span_ext_canonical (t : Track) (cmd : Cmd) (tail : List Nat) (hc : LCovered cmd)
-    (hn : LCmdNums t cmd) (ht : LSepTail tail) : ECmdTail cmd tail := by
-  cases cmd <;> first
-    | exact lcmdTail_lsepTail t _ tail hn ht
-    | exact absurd hc (by simp [LCovered, Covered])
+/-- the look-ahead condition of every command of the extended set holds on canonical lines (end of
+the line, or one space and the first byte of a command of the extended set) — except for a `\`
+without a written duration in front of a space: `mml_echo` reads a token there, so it would skip
+the separator (the parse is still right, `echo_step`, but the cursor is not where `ECmdTail` says) -/
+theorem C05_command_span_ext_canonical (t : Track) (cmd : Cmd) (tail : List Nat)
+    (hn : ECmdNums t cmd) (ht : LSepTail tail) (hecho : cmd = .echo (.dflt 0) → tail = []) : ECmdTail cmd tail :=
+  ecmdTail_lsepTail t cmd tail hn ht hecho
 
 example : LSepTail (32 :: (Cmd.simple .ins (some { v := 5 })).bytes) := Or.inr ⟨64, _, rfl, by simp [LCmdStart]⟩
 
